@@ -179,6 +179,9 @@ def dispatch_v6(
 
     # Some handlers require all peers if none specified
     if handler in _v6_needs_peers() and not peers:
+        # an explicit selector which matches no peer must not become "every peer"
+        if token_list[0] == 'peer':
+            raise NoMatchingPeers(command)
         peers = list(reactor.peers(service))
         if not peers:
             raise NoMatchingPeers(command)
